@@ -6,6 +6,7 @@ from __future__ import annotations
 
 from mc import autox, budget, core, par
 from mc import hdlcx as X
+from mc.ref import cosem as RC
 from mc.ref import hdlc as RH
 from mc.snap import digest
 
@@ -32,6 +33,49 @@ def pool():
                             ev[f"junk.sub{i}_{r:02x}.{k}"] = (m[:i] + bytes([r]) + m[i + 1:], None)
         _POOL = (gen, ev, autox.state_makers(gen))
     return _POOL
+
+
+_GENX = None
+
+
+def generated_pool():
+    """Well-formed lists from the shape generators of C07-C09 (every prefix, rotation and single element of the Aidon
+    layouts; Kaifa layouts x value variants; Kamstrup layouts x meter types x padding), frame and bare body:
+    key -> (payload, own decoder).  Deterministic, so replay files can name the keys."""
+    global _GENX
+    if _GENX is None:
+        from mc.props import C07, C08, C09
+
+        g = {}
+        for lname, base in C07.layouts().items():
+            shapes = [base[:k] for k in range(1, len(base) + 1)] + [base[k:] + base[:k] for k in range(1, len(base))] + [[it] for it in base] + [list(reversed(base))]
+            for i, items in enumerate(shapes):
+                body = RC.aidon_body(items)
+                g[f"genx.aidon.{lname}.{i}.body"] = (body, "Aidon_notification_body")
+                g[f"genx.aidon.{lname}.{i}.frame"] = (RC.llc(body), "Aidon_frame")
+        for lay in (1, 9, 13, 14, 18, "se"):
+            names = [n for _, n in RC.KAIFA_SE] if lay == "se" else RC.KAIFA_LAYOUTS[lay]
+            for off in (0, 1, 5, 250, 64000):
+                v = C08.base_values(names, off)
+                body = RC.kaifa_body_obis(v) if lay == "se" else RC.kaifa_body_positional(names, v)
+                g[f"genx.kaifa.{lay}.{off}.body"] = (body, "Kaifa_notification_body")
+                g[f"genx.kaifa.{lay}.{off}.frame"] = (RC.llc(body, b"\x09\x0c" + RC.dt12(*autox.APDU)), "Kaifa_frame")
+        for lay, names in RC.KAM_LAYOUTS.items():
+            n = len(names)
+            for mi, mt in enumerate(C09.MTYPES):
+                for pi, pad in enumerate([None, {0: 1}, {n: 1}, {i: 1 for i in range(n + 1)}, {1: 4}]):
+                    if mi > 1 and pi > 1:
+                        continue
+                    body = RC.kam_body(names, C09.base_values(names, mt), "Kamstrup_V0001", pad or {})
+                    g[f"genx.kamstrup.{lay}.{mi}.{pi}.body"] = (body, "Kamstrup_notification_body")
+                    g[f"genx.kamstrup.{lay}.{mi}.{pi}.frame"] = (RC.llc(body, b"\x0c" + RC.dt12(*autox.APDU), b"\x00\x00\x00\x00"), "Kamstrup_frame")
+        _GENX = g
+    return _GENX
+
+
+def lookup(key):
+    gen, ev, makers = pool()
+    return ev[key] if key in ev else generated_pool()[key]
 
 
 def same_result(a, b) -> bool:
@@ -80,7 +124,7 @@ def replay_history(hist):
     gen, ev, makers = pool()
     a = autodecoder.AutoDecoder()
     for k in hist:
-        a.decode_message_payload(ev[k][0])
+        a.decode_message_payload(lookup(k)[0])
     return a
 
 
@@ -88,7 +132,7 @@ def judge(hist, key, history_genuine_same=True):
     """Execute one transition (state reached by hist) --key--> on the real AutoDecoder.
     Returns (violations, escapes, name of remembered decoder afterwards, decoded?)."""
     gen, ev, makers = pool()
-    payload, own = ev[key]
+    payload, own = lookup(key)
     names = list(autox.DECODER_NAMES)
     viol, esc = [], []
     if isinstance(hist, str) or hist is None:  # replay files of the first version name the state by decoder
@@ -271,6 +315,34 @@ def _work(task) -> core.Part:
     return p
 
 
+def _work_generated(task) -> core.Part:
+    """Every generated well-formed list on a fresh AutoDecoder, on one that remembers the list's own decoder, and on one
+    that remembers each of the other decoders."""
+    keys, = task
+    p = core.Part()
+    gen, ev, makers = pool()
+    firsts = {}
+    for k, (m, own) in sorted(gen.items()):
+        if k.startswith("fix.") or own == "P1":
+            firsts.setdefault(own, k)
+    hists = [()] + [(firsts[n],) for n in autox.DECODER_NAMES if n in firsts]
+    for key in keys:
+        for hist in hists:
+            v, esc, after, decoded = judge(hist, key, True)
+            p.add("transitions")
+            p.add("generated_transitions")
+            if decoded:
+                p.add("decoded")
+            p.out(f"{'fresh' if not hist else 'primed'}->{after}")
+            for m in v:
+                p.viol("autodecoder", f"autodecoder:gen:{list(hist)}:{key}:{m[:60]}", f"after history {list(hist)}, generated list {key}: {m}",
+                       {"state": "history", "history": list(hist), "event": key}, size=len(hist) + 1)
+        if p.full("autodecoder"):
+            p.capped = True
+            break
+    return p
+
+
 def main(run: core.Run) -> int:
     run.rule = ("events = every pool payload (28 captured messages + reference-built lists of every supported shape in frame and bare-body form + 5 P1 blocks + junk); states = reachable AutoDecoder snapshots; "
                 "BFS to a fixpoint executes every (state, event) transition on the real object, both entry points; non-trivial = distinct transitions whose result is a dictionary")
@@ -325,6 +397,9 @@ def main(run: core.Run) -> int:
     run.log(f"fixpoint: {len(seen)} states, {edges} transitions; histories <= 3 over {len(sub)} events")
     run.merge(par.pmap(_work_seq, [(f, sub, table) for f in sub], seed=run.seed))
     run.merge(par.pmap(_work_collisions, [0], seed=run.seed))
+    gx = sorted(generated_pool())
+    run.log(f"generated well-formed lists: {len(gx)} messages x 8 histories")
+    run.merge(par.pmap(_work_generated, [(gx[i::64],) for i in range(64)], seed=run.seed))
     tot = run.total
     nontriv = tot.c.get("decoded", 0)
     tot.sample({"state": None, "event": "ref.kaifa.list1_1320W.body", "payload": "02010600000528", "expected": "decoded by Kaifa_notification_body"})
@@ -332,6 +407,7 @@ def main(run: core.Run) -> int:
     run.bounds = {"pool": len(keys), "genuine": len(gen), "remembered_decoders_reached": sorted(str(s) for s in names_seen), "fixpoint": closed, "bfs_levels": level}
     run.assumptions = ["the AutoDecoder's future depends only on its snapshotted attributes, so the BFS over remembered-decoder states closes and covers histories of any length over the pool",
                        "accept/reject of the individual decoders is observed by calling the seven public functions directly"]
+    run.bounds["generated_lists"] = f"{len(gx)} lists from the C07-C09 shape generators x (fresh + 7 remembered decoders)"
     run.bounds["histories"] = f"all {len(sub)}^3 sequences of length 3 (and their prefixes) over a {len(sub)}-event sub-pool, replayed on one live object"
     nseq = tot.c.get("sequences", 0)
     return run.finish(states=len(seen), transitions=tot.c.get("transitions", edges), traces=edges + nseq, evaluations=edges + nseq, distinct_nontrivial=nontriv)
